@@ -107,6 +107,15 @@ ExpectWith(e, a) ==
       [] e.op = "expand" -> Expand(a, e.args.axis, e.args.spacing, e.args.fill)
       \* C07
       \* C14: a binary ufunc over two views (the nested view may be either operand): f(va(a), vb(b))
+      \* C13 / C14: a chain of three unary / binary steps f3(f2(f1(a))) (depth-3 view types in the quick tier); binary steps take operand 2
+      [] e.op = "chain3" ->
+            LET b == Operand(e, 2)
+                st(v, o) == CASE o = "negative" -> Elementwise(<<v>>, LAMBDA x : Scalar1("negative", x[1]))
+                              [] o = "square" -> Elementwise(<<v>>, LAMBDA x : Scalar1("square", x[1]))
+                              [] o = "add_b" -> Elementwise(<<v, b>>, LAMBDA x : Scalar2("add", x[1], x[2]))
+                              [] o = "sub_b" -> Elementwise(<<v, b>>, LAMBDA x : Scalar2("subtract", x[1], x[2]))
+                r == st(st(st(a, e.args.ops[1]), e.args.ops[2]), e.args.ops[3])
+            IN [ok |-> r.ok, shape |-> r.shape, elems |-> r.elems]
       [] e.op = "tree" ->
             LET vw(x, w) == CASE w = "id" -> x [] w = "transpose" -> Transpose(x, <<>>) [] w = "flatten" -> Flatten(x)
                 r == Elementwise(<<vw(a, e.args.va), vw(Operand(e, 2), e.args.vb)>>, LAMBDA v : Scalar2(e.args.f, v[1], v[2]))
